@@ -449,8 +449,13 @@ fn do_from_expr(
     }
 }
 
+// Escapes text for use inside a double-quoted Graphviz string.
+pub(crate) fn escape_dot_string(s: &str) -> String {
+    s.replace('\\', "\\\\").replace('"', "\\\"")
+}
+
 pub(crate) fn make_dot_string_constant(s: &str) -> String {
-    let escaped = s.replace('\\', "\\\\").replace('"', "\\\"");
+    let escaped = escape_dot_string(s);
     format!(r#""{escaped}""#)
 }
 
@@ -531,7 +536,9 @@ fn do_to_dot<W: Write>(
             else {
                 unreachable!();
             };
+            let literal = escape_dot_string(&literal);
             if let Some(description) = description {
+                let description = escape_dot_string(&description);
                 writeln!(
                     output,
                     r#"{indentation}{node_dot_id}[label="{pos}: \"{literal}\"\n\"{description}\""];"#
@@ -551,6 +558,7 @@ fn do_to_dot<W: Write>(
             let RegexInput::Nonterminal { nonterm, .. } = input else {
                 unreachable!()
             };
+            let nonterm = escape_dot_string(&nonterm);
             writeln!(
                 output,
                 r#"{indentation}{node_dot_id}[label="{pos}: <{nonterm}>"];"#
